@@ -112,6 +112,19 @@ EDITS = [
     ('QuotaSelector: equivalent test, renamed', 'Approval', 'GenTie_Approval', APP,
      [("        for cand, n_votes in votes.items():\n            if n_votes > qval or self.accept_equal and n_votes == qval:\n                over_quota[cand] = n_votes\n            else:\n                unselected.add(cand)\n",
        "        for c, v in votes.items():\n            if (self.accept_equal and qval == v) or not v <= qval:\n                over_quota[c] = v\n            else:\n                unselected.add(c)\n")], 'holds'),
+    ('QuotaSelector: refusal already at equality', 'Approval', 'GenTie_Approval', APP,
+     [("        if len(over_quota) > n_seats:\n", "        if len(over_quota) >= n_seats:\n")], 'breaks'),
+    ('QuotaSelector: refusal also under select', 'Approval', 'GenTie_Approval', APP,
+     [("            if self.on_more_over_quota == 'error':\n", "            if self.on_more_over_quota != 'ignore':\n")], 'breaks'),
+    ('QuotaSelector: one seat too many', 'Approval', 'GenTie_Approval', APP,
+     [("        return votelib.evaluate.core.get_n_best(over_quota, n_seats)\n", "        return votelib.evaluate.core.get_n_best(over_quota, n_seats + 1)\n")], 'breaks'),
+    ('QuotaSelector: best of all votes', 'Approval', 'GenTie_Approval', APP,
+     [("        return votelib.evaluate.core.get_n_best(over_quota, n_seats)\n", "        return votelib.evaluate.core.get_n_best(votes, n_seats)\n")], 'breaks'),
+    ('QuotaSelector: message typo repaired (fixes/C16-quota-selector-setting-message.diff)', 'Approval', 'GenTie_Approval', APP,
+     [("                    f'invalid more_over_quota setting: {self.more_over_quota}'\n", "                    'invalid on_more_over_quota setting: '\n                    f'{self.on_more_over_quota}'\n")], 'holds'),
+    ('QuotaSelector: settings tested the other way round', 'Approval', 'GenTie_Approval', APP,
+     [("            if self.on_more_over_quota == 'error':\n                raise votelib.evaluate.core.VotingSystemError(\n                    f'wanted {n_seats}, quota gave {len(over_quota)}'\n                )\n            elif self.on_more_over_quota != 'select':\n",
+       "            if self.on_more_over_quota == 'error':\n                raise votelib.evaluate.core.VotingSystemError('too many')\n            if not self.on_more_over_quota == 'select':\n")], 'holds'),
     # ---- openlist.py
     ('OpenList: jump test > becomes >=', 'Openlist', 'GenTie_Openlist', OL, [("if n_votes > threshold or (", "if n_votes >= threshold or (")], 'breaks'),
     ('OpenList: max and min swapped', 'Openlist', 'GenTie_Openlist', OL, [("(max if self.take_higher else min)", "(min if self.take_higher else max)")], 'breaks'),
